@@ -323,6 +323,23 @@ def execute_check(check: Check, tier: str, seed: int, jobs: int) -> int:
               f"detail={json.dumps(v2.get('detail'), default=str)[:400]}")
         reported += 1
         exit_code = 1
+    # statistics over the whole batch (fixed sample, bounds wide enough that a false alarm is out of the question):
+    # the replay file names the runs, and replaying re-executes them and recomputes the statistic
+    if check.post is not None:
+        for av in check.post(ok):
+            v = {"property": check.prop, "kind": av["kind"], "detail": av["detail"], "event": None, "time": None}
+            f = match_finding(v, findings)
+            if f is not None:
+                known_lines.setdefault(f["id"], (f, 0))
+                known_lines[f["id"]] = (f, known_lines[f["id"]][1] + 1)
+                continue
+            scn = {"format": 1, "aggregate": True, "runs": av["runs"], "meta": {"property": check.prop, "verif_seed": seed}}
+            path = write_replay(check, scn, v, seed, reported)
+            print(f"VIOLATION property={check.prop} replay={path}")
+            print(f"#   kind={v['kind']} (statistic over {len(av['runs'])} runs) detail={json.dumps(v['detail'], default=str)[:400]}")
+            new_classes.setdefault(v["kind"], []).append((None, v))
+            reported += 1
+            exit_code = 1
     for fid in sorted(known_lines):
         f, n = known_lines[fid]
         print(f"KNOWN-FINDING: property={check.prop} {f['text']} (id={fid}, seen in {n} runs)")
@@ -476,10 +493,47 @@ def abridge(scn: Dict[str, Any]) -> Dict[str, Any]:
     return out
 
 
+def replay_aggregate(path: str, scn: Dict[str, Any], check: Check) -> int:
+    global _CHECK, _SEED
+    seed = int(scn["meta"]["verif_seed"])
+    _CHECK, _SEED = check, seed
+    names = [b.name for b in check.batches]
+    by_batch: Dict[str, List[int]] = {}
+    for bn, idx in scn["runs"]:
+        by_batch.setdefault(bn, []).append(int(idx))
+    tasks = []
+    for bn, idxs in by_batch.items():
+        idxs.sort()
+        # contiguous stretches of indices
+        lo = prev = idxs[0]
+        for i in idxs[1:] + [None]:
+            if i is None or i != prev + 1:
+                tasks.append((names.index(bn), lo, prev + 1))
+                lo = i
+            prev = i if i is not None else prev
+    results: List[Dict[str, Any]] = []
+    jobs = int(os.environ.get("VERIF_JOBS", os.cpu_count() or 4))
+    with ProcessPoolExecutor(max_workers=jobs, mp_context=mp.get_context("fork")) as ex:
+        for f in [ex.submit(_work, t) for t in tasks]:
+            results.extend(f.result(timeout=3600))
+    ok = [r for r in results if "harness_error" not in r]
+    want = scn.get("found", {})
+    for av in check.post(ok):
+        if av["kind"] == want.get("kind"):
+            print(f"VIOLATION property={check.prop} replay={path}")
+            print(f"#   reproduced kind={av['kind']} (statistic over {len(ok)} runs, identical={av['detail'] == want.get('detail')}) "
+                  f"detail={json.dumps(av['detail'], default=str)[:500]}")
+            return 1
+    print(f"# replay of {path}: the statistic is within its bounds on this tree ({len(ok)} runs)")
+    return 0
+
+
 def replay_file(path: str, checks: Dict[str, Check]) -> int:
     scn = json.load(open(path))
     prop = scn.get("found", {}).get("property") or scn.get("meta", {}).get("property")
     check = checks[prop]
+    if scn.get("aggregate"):
+        return replay_aggregate(path, scn, check)
     batch = None
     for b in check.batches:
         if b.name == scn.get("meta", {}).get("batch"):
